@@ -1185,7 +1185,10 @@ def c16_check(variant, recs, t, wd, final_newline=True):
         final_newline = True
     # a third of the cases (by content) use names with a blank and a non-ASCII letter, a third relative paths
     mode = (len(data) + 2 * t) % 3
-    inp = os.path.join(wd, ("in put \u00e9." if mode == 1 else "in.") + ext)
+    # names with a blank and a non-ASCII letter, and with characters that mean something to format strings, progress
+    # templates, globs and shells
+    odd_names = ["in put \u00e9.", "empty{}.", "short}.", "mixed_{lib:a}.", "pct%s%d%%.", "glob*[1]?.", "dollar$HOME.", "quote'\"`.", "back\\slash.", "{elapsed}{msg}.", "semi;amp&.", "-dash."]
+    inp = os.path.join(wd, (odd_names[(len(data) // 3 + t) % len(odd_names)] if mode == 1 else "in.") + ext)
     cwd = wd if mode == 2 else None
     if final_newline == "bare" and data.endswith(b"\n\n"):
         # a last record without bases, written without a sequence line and without a line terminator: the file ends
@@ -1865,6 +1868,224 @@ def c12_huge_output(tier):
             size, lines, os.path.getsize(outs[1]), os.path.getsize(outs[2])), "c12_huge_output", {})
     rep.count("c12.huge_output_runs", 3)
     shutil.rmtree(d, ignore_errors=True)
+    return rep.done()
+
+
+def c_source_fifo(tier, kinds):
+    """the input as a source that can be read only once (a FIFO fed by another process: `mkfifo in.fa; zcat x.gz > in.fa &`),
+    for the commands that read their input in one pass; oracle = the canonical result of the same bytes as a regular file"""
+    rep = Rep()
+    d = fresh_dir("srcfifo")
+    recs = lcg_records(3000, 1717, 30, 200, False)
+    data = fasta_bytes(recs)
+    regular = os.path.join(d, "reg.fa")
+    open(regular, "wb").write(data)
+    ARGS = {
+        "s2m": ["min", "-m", "7", "-w", "11", "-p", "s2m"], "m2s": ["min", "-m", "7", "-w", "11", "-p", "m2s"], "s2m-w0": ["min", "-m", "7", "-w", "0", "-p", "s2m"],
+        "oligo-c": ["comp", "oligo", "-c", "-k", "3"], "cgr": ["comp", "cgr", "-v", "16"], "kcgr": ["comp", "cgr", "-k", "3", "-v", "16"],
+    }
+
+    def canon(kind, b):
+        if b is None:
+            return None
+        if kind == "m2s":
+            return m2s_canon(b)
+        if kind.startswith("s2m"):
+            return sorted(lines_of(b) or [])
+        return b
+
+    def do(job):
+        kind, t = job
+        wd = fresh_dir("srcfifo")
+        a = ARGS[kind]
+        base = a[:2] if a[0] == "comp" else a[:1]
+        rest = a[len(base):]
+        ref = os.path.join(wd, "ref.txt")
+        rc0, so, err0, to0 = cli(base + ["-i", regular, "-o", ref] + rest + ["-t", str(t)], timeout=120)
+        if rc0 != 0 or read(ref) is None:
+            raise fe.Machinery("c_source_fifo: the run on the regular file failed for %s: exit %s %r" % (kind, rc0, err0[-200:]))
+        fifo = os.path.join(wd, "in.fa")
+        os.mkfifo(fifo)
+
+        def feeder():
+            try:
+                with open(fifo, "wb") as f:
+                    for i in range(0, len(data), 4096):
+                        f.write(data[i:i + 4096])
+            except OSError:
+                pass
+
+        th = threading.Thread(target=feeder, daemon=True)
+        th.start()
+        out = os.path.join(wd, "out.txt")
+        rc, so, err, to = cli(base + ["-i", fifo, "-o", out] + rest + ["-t", str(t)], timeout=60)
+        if to:
+            # the reader never came (or came twice): release the feeder
+            try:
+                fd = os.open(fifo, os.O_RDONLY | os.O_NONBLOCK)
+                os.close(fd)
+            except OSError:
+                pass
+        th.join(5)
+        rep.ev(1, 1)
+        if rc != 0 or to or canon(kind, read(out)) != canon(kind, read(ref)):
+            got = read(out)
+            rep.violation("result-depends-on-kind-of-input-file", 10, "kmertools %s -t %d reading 3000 records from a FIFO: exit %s%s, %s lines; from a regular file with the same bytes: %d lines %r" % (
+                " ".join(a), t, rc, " (no exit within 60 s)" if to else "", None if got is None else got.count(b"\n"), read(ref).count(b"\n"), err[-160:]), "c_source_fifo", {"kind": kind, "t": t})
+        shutil.rmtree(wd, ignore_errors=True)
+
+    jobs = [(k, t) for k in kinds for t in (1, 4)]
+    pmap(do, jobs)
+    rep.count("env.fifo_input_runs", len(jobs))
+    rep.sample("kmertools min -p m2s -i <fifo fed by another process>: same table as from a regular file")
+    return rep.done()
+
+
+def c_env_nofile(tier):
+    """the number of files a process may have open (RLIMIT_NOFILE: 1024 on most Linux systems, 256 on others, less in
+    containers) against a counting job split into hundreds of chunks and partitions: a run that ends with status 0
+    has counted exactly; running out of descriptors may only end the run loudly."""
+    import resource
+    rep = Rep()
+    d = fresh_dir("nofile")
+    recs = lcg_records(300, 555, 200, 200, False)
+    inp = write_inputs(d, "n", recs)["fa"]
+    k = 11
+    want = pm.counts(recs, k)
+    limits = [24, 32, 48, 64, 96, 128, 192, 256, 384, 512, 1024]
+    jobs = [(L, t, mem) for L in limits for (t, mem) in ((2, "0.0000015"), (4, "0.000004"))]
+
+    def do(job):
+        L, t, mem = job
+        wd = fresh_dir("nofile")
+        out = os.path.join(wd, "out")
+        e = dict(os.environ)
+        e.pop("RUST_BACKTRACE", None)
+        e["KTMC_SCRATCH"] = fe.scratch_base()
+
+        def pre():
+            resource.setrlimit(resource.RLIMIT_NOFILE, (L, L))
+        try:
+            p = subprocess.run([fe.KTMC, "lib", "ctr", "in=" + inp, "out=" + out, "k=%d" % k, "threads=%d" % t, "memory=" + mem], stdin=subprocess.DEVNULL,
+                               stdout=subprocess.PIPE, stderr=subprocess.PIPE, timeout=300, env=e, preexec_fn=pre)
+            rc, err = p.returncode, p.stderr
+        except subprocess.TimeoutExpired:
+            rc, err = -9, b"timeout"
+        rep.ev(1, 1)
+        rep.outcome("limit %d: %s" % (L, "completed" if rc == 0 else "ended loudly"))
+        if rc == 0:
+            table = parse_counts(read(os.path.join(out, "kmers.counts")), False, k)
+            left = sorted(f for f in os.listdir(out) if f.startswith("temp_")) if os.path.isdir(out) else []
+            if table != want or left:
+                rep.violation("counts-depend-on-open-file-limit", L, "counting 300 records (k=%d, %d threads, ceiling %s GB: hundreds of chunk files) with at most %d open files: exit 0, %s distinct k-mers (model %d), sum of counts %s (model %d), %d temporary files left" % (
+                    k, t, mem, L, None if table is None else len(table), len(want), None if table is None else sum(table.values()), sum(want.values()), len(left)), "c_env_nofile", {"limit": L, "t": t, "memory": mem})
+        elif rc == -9:
+            rep.violation("hang", L, "counting with at most %d open files did not end within 300 s" % L, "c_env_nofile", {"limit": L})
+        shutil.rmtree(wd, ignore_errors=True)
+
+    pmap(do, jobs)
+    rep.count("env.open_file_limit_runs", len(jobs))
+    rep.sample("ktmc lib ctr (CountComputer count + merge) under RLIMIT_NOFILE = 64 with ~200 chunk files: exit 0 implies the exact table")
+    return rep.done()
+
+
+def c_first_calls(tier):
+    """the first calls of a fresh process, made by 8 threads at the same moment (what a routine builds lazily on first
+    use is then built under contention): decoding, reverse complement, index maps and both iterators against the
+    model. One fresh process per repetition (free-running; 60 repetitions, thorough 600)."""
+    rep = Rep()
+    n = 60 if tier == "quick" else 600
+
+    def do(i):
+        rc, so, err, to = run([fe.KTMC, "lib", "firstcalls", "threads=8", "salt=%d" % i], timeout=60, env={"KTMC_SCRATCH": fe.scratch_base()})
+        rep.ev(1, 1)
+        if rc == 1:
+            rep.violation("first-calls-under-contention", 5, "fresh process %d, 8 threads making the first calls at once: %s" % (i, so.decode("utf-8", "replace")[:600]), "c_first_calls", {"salt": i})
+        elif rc != 0:
+            raise fe.Machinery("ktmc lib firstcalls failed: exit %s %r" % (rc, err[-300:]))
+
+    pmap(do, range(n), workers=4)
+    rep.count("env.first_call_processes", n)
+    rep.sample("8 threads released by a barrier make the first rev_comp / numeric_to_kmer / kmer_pos_maps calls of a fresh process")
+    return rep.done()
+
+
+def c17_near_inputs(tier):
+    """histories of two runs whose inputs are close relatives: the second input has the ids of two records exchanged,
+    one base substituted (every length unchanged), two records exchanged, or the case of a record changed. Whatever a
+    run decides from sizes, counts, names or key sets of what lies at the output location is the same for both inputs.
+    Oracle: the documented result files after the second run equal those of the second run in a fresh location."""
+    rep = Rep()
+    d = fresh_dir("c17near")
+    base = lcg_records(12, 2024, 60, 90, False)
+    ids = [b"s%02d" % i for i in range(len(base))]
+
+    def variant(kind):
+        recs, names = list(base), list(ids)
+        if kind == "ids-exchanged":
+            names[2], names[7] = names[7], names[2]
+        elif kind == "one-base-substituted":
+            r = bytearray(recs[5])
+            r[33] = ord("A") if r[33] != ord("A") else ord("C")
+            recs[5] = bytes(r)
+        elif kind == "records-exchanged":
+            recs[1], recs[9] = recs[9], recs[1]
+            names[1], names[9] = names[9], names[1]
+        elif kind == "case-changed":
+            recs[4] = recs[4].lower()
+        return recs, names
+
+    paths = {"base": write_inputs(d, "base", base, ids)["fa"]}
+    for v in ("ids-exchanged", "one-base-substituted", "records-exchanged", "case-changed"):
+        recs, names = variant(v)
+        sub = os.path.join(d, v)
+        os.makedirs(sub)
+        paths[v] = write_inputs(sub, "base", recs, names)["fa"]  # the same file name in another directory
+    KINDS = {
+        "oligo": (["comp", "oligo"], ["-k", "4", "-t", "2"], None), "oligo-c": (["comp", "oligo"], ["-c", "-k", "4", "-t", "2"], None),
+        "cgr": (["comp", "cgr"], ["-v", "16", "-t", "2"], None), "kcgr": (["comp", "cgr"], ["-k", "4", "-v", "16", "-t", "2"], None),
+        "s2m": (["min"], ["-m", "10", "-p", "s2m", "-t", "1"], None), "m2s": (["min"], ["-m", "10", "-p", "m2s", "-t", "1"], None),
+        "m2s-w31": (["min"], ["-m", "10", "-w", "31", "-p", "m2s", "-t", "2"], None),
+        "ctr": (["ctr"], ["-k", "11", "-t", "2"], ["kmers.counts"]), "cov": (["cov"], ["-k", "11", "-s", "5", "-c", "5", "-t", "2"], ["kmers.counts", "kmers.vectors"]),
+    }
+
+    def result(kind, out):
+        files = KINDS[kind][2]
+        if files is None:
+            data = read(out)
+            if data is None:
+                return None
+            return m2s_canon(data) if kind.startswith("m2s") else sorted(lines_of(data) or []) if kind == "s2m" else data
+        res = {}
+        for f in files:
+            data = read(os.path.join(out, f))
+            res[f] = None if data is None else (sorted(lines_of(data) or []) if f == "kmers.counts" else data)
+        return res
+
+    def invoke(kind, inp, out):
+        b, rest, _ = KINDS[kind]
+        return cli(b + ["-i", inp, "-o", out] + rest, timeout=120)
+
+    def do(job):
+        kind, v, order = job
+        first, second = ("base", v) if order == 0 else (v, "base")
+        wd = fresh_dir("near")
+        shared, fresh = os.path.join(wd, "shared"), os.path.join(wd, "fresh")
+        invoke(kind, paths[first], shared)
+        rc2, so, err2, to = invoke(kind, paths[second], shared)
+        rcf, so, errf, to = invoke(kind, paths[second], fresh)
+        rep.ev(1, 1)
+        if rcf != 0:
+            raise fe.Machinery("c17_near_inputs: the run into a fresh location failed for %s: %r" % (kind, errf[-200:]))
+        if rc2 != 0 or result(kind, shared) != result(kind, fresh):
+            rep.violation("depends-on-related-earlier-run", 10, "kmertools %s on input '%s' into the location of an earlier run on input '%s' (12 records; the two inputs differ only by: %s): exit %s; the result differs from the same run in a fresh location" % (
+                kind, second, first, v, rc2), "c17_near_inputs", {"kind": kind, "variant": v, "order": order})
+        shutil.rmtree(wd, ignore_errors=True)
+
+    jobs = [(k, v, o) for k in KINDS for v in paths if v != "base" for o in (0, 1)]
+    pmap(do, jobs)
+    rep.count("c17.near_input_histories", len(jobs))
+    rep.sample("kmertools min -p m2s on 12 records, then on the same records with the ids of two of them exchanged, same output path: the listing of the second input")
     return rep.done()
 
 
